@@ -109,7 +109,7 @@ func mutate(r *vh.Rng, v interface{}, depth int) interface{} {
 	}
 	switch x := v.(type) {
 	case map[string]interface{}:
-		if r.Chance(35) {
+		if r.Chance(10) {
 			return x
 		}
 		m := map[string]interface{}{}
@@ -147,7 +147,7 @@ func mutate(r *vh.Rng, v interface{}, depth int) interface{} {
 		}
 		return m
 	case []interface{}:
-		if r.Chance(25) {
+		if r.Chance(8) {
 			return x
 		}
 		a := append([]interface{}{}, x...)
@@ -198,7 +198,7 @@ func mutate(r *vh.Rng, v interface{}, depth int) interface{} {
 		}
 		return a
 	default:
-		if r.Chance(50) {
+		if r.Chance(70) {
 			return genScalar(r)
 		}
 		return v
